@@ -122,6 +122,18 @@ func LibDecode(msg any, buf *bytes.Buffer) (error, *mon.Panic) {
 	})
 }
 
+// NewVia returns a fresh receiver of the named type: the generated constructor NewT() when alt is odd and one
+// exists, the plain &T{} otherwise.  Applications obtain their message objects both ways; objects obtained from
+// two constructor calls must be as independent as two &T{}.
+func (e *Env) NewVia(qname string, alt int) any {
+	if alt%2 == 1 {
+		if ctor := bind.Ctors[qname]; ctor != nil {
+			return ctor()
+		}
+	}
+	return e.C.New[qname]()
+}
+
 // EncodeFresh encodes into a new empty buffer and returns the bytes.
 func EncodeFresh(msg any) ([]byte, error, *mon.Panic) {
 	var b bytes.Buffer
